@@ -107,6 +107,14 @@ def apply_core_rules(text, log, where, keep_pub=False):
                     k += 1
                 attr = ''.join(x.text for x in toks[i:k + 1])
                 a = norm_ws(attr)
+                md = re.match(r'#\[derive\((.*)\)\]$', a)
+                if md:
+                    keep = [x.strip() for x in md.group(1).split(',') if x.strip() in ('Clone', 'Copy')]
+                    if keep:
+                        out.append('#[derive(%s)]' % ', '.join(keep))
+                    log.append(('R1', where, 'derive reduced to [%s]: %s' % (', '.join(keep), a[:70])))
+                    i = k + 1
+                    continue
                 if re.match(r'#\[(inline|allow|derive|doc|must_use|cfg_attr|serde)', a) or a.startswith('#[inline'):
                     log.append(('R1', where, 'attribute dropped: ' + a[:60]))
                     i = k + 1
@@ -297,7 +305,7 @@ def splice_function(src_text, spec, log, where):
             text = rule_R6(text, int(r[1]), r[2] if len(r) > 2 else 'it', log, where)
         elif rid == 'R7':
             text = rule_R7(text, int(r[1]), log, where)
-        elif rid in ('R5', 'R8', 'R9', 'R10', 'R11', 'R12'):
+        elif rid in ('R5', 'R8', 'R9', 'R10', 'R11', 'R12', 'R13'):
             # //@ rule R9 <<old>> ==> <<new>>
             body = ' '.join(r[1:])
             m = re.match(r'<<(.*)>>\s*==>\s*<<(.*)>>\s*(\d*)$', body, re.S)
@@ -425,22 +433,28 @@ def splice_function(src_text, spec, log, where):
 # template processing
 # ----------------------------------------------------------------------------
 
+def expand_includes(path, depth=0):
+    root = os.path.dirname(os.path.dirname(os.path.abspath(__file__)))
+    out = []
+    for l in open(path).read().split('\n'):
+        inc = re.match(r'\s*//@@\s+include\s+(\S+)\s*$', l)
+        if inc:
+            if depth > 5:
+                raise ExtractError('include depth exceeded at ' + path)
+            out.extend(expand_includes(os.path.join(root, inc.group(1)), depth + 1))
+        else:
+            out.append(l)
+    return out
+
+
 def parse_template(path):
     """Yield ('text', [lines]) and ('item', dict) entries."""
     entries = []
-    lines = open(path).read().split('\n')
+    lines = expand_includes(path)
     i = 0
     buf = []
     while i < len(lines):
         l = lines[i]
-        inc = re.match(r'\s*//@@\s+include\s+(\S+)\s*$', l)
-        if inc:
-            ipath = os.path.join(os.path.dirname(os.path.dirname(os.path.abspath(path))), inc.group(1))
-            if not os.path.exists(ipath):
-                ipath = os.path.join(os.path.dirname(os.path.dirname(os.path.abspath(__file__))), inc.group(1))
-            buf.extend(open(ipath).read().split('\n'))
-            i += 1
-            continue
         m = re.match(r'\s*//@@\s+(fn|struct|enum|const|mod)\s+(\S+)\s+(\S+)\s*$', l)
         if not m:
             if re.match(r'\s*//@@', l):
@@ -477,6 +491,9 @@ def parse_template(path):
                     item['mode'] = arg
                 elif cmd == 'vacuity':
                     pass
+                elif cmd == 'specfile':
+                    sp = os.path.join(os.path.dirname(os.path.dirname(os.path.abspath(__file__))), arg)
+                    item['spec'].extend(open(sp).read().rstrip('\n').split('\n'))
                 elif cmd == 'spec':
                     cur = item['spec']
                 elif cmd == 'top':
@@ -546,7 +563,7 @@ def build_unit(template, repo, out_rs, out_map):
             continue
         src, it, line = locate(repo, item['file'], item['kind'], item['name'])
         where = '%s::%s' % (item['file'], item['name'])
-        text = src[it.start:it.end]
+        text = src[(it.attr_start if item['kind'] in ('struct', 'enum') else it.start):it.end]
         sha = hashlib.sha256(text.encode()).hexdigest()
         if item['kind'] == 'fn':
             olines, rewritten = splice_function(text, item, log, where)
